@@ -114,7 +114,7 @@ func (eng *Engine) fnByName(pkg, name string) *ssa.Function {
 
 var denyInit = []string{
 	modPath + "/level/block", modPath + "/data/",
-	modPath + "/level/item", modPath + "/registry",
+	modPath + "/level/item",
 }
 
 var stdInitAllow = map[string]bool{
